@@ -11,7 +11,8 @@
 //  frag   (a) n = 2, one link.  For every class x mode x exchange x scheduler cell: the unsplit wire, EVERY single cut
 //         and (depth 2) EVERY pair of cuts of the wire image, each under three poll policies between fragments
 //         (p1 = exactly one Receive call, p2 = two calls, pq = until quiescence; always quiescence after the last
-//         fragment).  Oracle: delivered sequence == sent sequence (values, array shapes, sender index), each exactly
+//         fragment); plus regular chunkings with many cuts: chunk sizes {1,2,3,5,8,15,16,17,31,32,33} x every phase.
+//         Oracle: delivered sequence == sent sequence (values, array shapes, sender index), each exactly
 //         once, nothing before its last byte was relayed, nothing spurious afterwards.
 //         The receiver's private state (buf_ptr, buf_flag, iv_flag_in, mac_sqn_in, chunk_in, buffered bytes, buf_mpz,
 //         scheduler cursors, bytes pending in the pipe, #delivered) is hashed with the remaining wire length at every
@@ -497,6 +498,20 @@ template<class AIO> static void frag_cell(const Cell &C, const Mode &m, size_t s
 			}
 		}
 	}
+	// regular chunkings (more than two cuts): every chunk size k of the list x every phase 1..k: first fragment phase bytes,
+	// then k bytes each — includes the byte-at-a-time relay (k = 1) and sizes around the IV (16) and tag (32) lengths
+	static const size_t CHUNKS[] = { 1, 2, 3, 5, 8, 15, 16, 17, 31, 32, 33 };
+	for (int poll = 0; poll < 3; poll++)
+		for (size_t ci = 0; ci < sizeof(CHUNKS) / sizeof(CHUNKS[0]); ci++)
+			for (size_t phase = 1; phase <= CHUNKS[ci]; phase++)
+			{
+				std::string cid = C.id + "/" + POLL_NAME[poll] + "/ck" + str(CHUNKS[ci]) + "+" + str(phase);
+				if (!R->selected(cid)) continue;
+				cuts.clear();
+				for (size_t c = phase; c < len; c += CHUNKS[ci]) cuts.push_back(c);
+				if (cuts.size() < 3) continue;   // already covered by the cut pairs / single cuts
+				frag_case<AIO>(cid, m, sched, ex, w, cuts, poll, S, cellh);
+			}
 	TOTAL_STATES += S.seen.size(), TOTAL_TRANS += S.transitions;
 	R->sample(C.id + "/pq/" + str(len / 2), "sent " + show(ex) + " wire " + str(len) + " bytes (iv " + str(w.ivlen) + ", " + str(w.msg.size()) + " messages, tag " + str(w.maclen) +
 		"): every cut" + (depth > 1 ? " and pair of cuts" : "") + " x {p1,p2,pq}; " + str(S.seen.size()) + " distinct (state,remaining) pairs");
